@@ -9,8 +9,8 @@ sv_slices = [
 ]
 TRUSTED = [
  "REGION slice: only the loop nest that computes the new vectors' scaling factors and inserts the new elements into the cross file is executed (verbatim, region_start/region_end); the earlier parts of doAddRows/doAddCols (append the set, create missing cross vectors, count per cross vector, xtend + set_size) are replaced by a precondition on the state they leave: S1 new own vectors oldNumber..num()-1 hold nonzeros/sides/objective as entered, legal sizes, one exponent entry per vector in both arrays; S2 every index of a new vector < number of cross vectors; S3 newCols[k]/newRows[k] = number of nonzeros with index k in the new vectors, cross vector k already extended by that many cells (newCols[k] <= size(k) <= max(k))",
- "both loops of the region unwound completely (--unwind 4 with unwinding assertions): at most 3 own vectors (old + new) of at most 2 nonzeros, 2 cross vectors of at most 4 cells",
- "storage model: flat cell arrays, vector v = cells [v*stride, v*stride+stride); SVector index()/value() real bodies (sliced), size()/max() stubs",
+ "both loops of the region unwound completely (--unwind CAPO+1 with unwinding assertions); scope: at most CAPO own vectors after the append (CAPO = 2 quick, 3 in the _cap3 instances; any split into old and new ones) of at most 2 nonzeros each, at most 2 cross vectors of at most 2 cells each",
+ "storage model: flat cell arrays, vector v = cells [v*2, v*2+2); SVector index()/value() real bodies (sliced), size()/max() stubs",
  "computeScaleExp stubbed: an arbitrary exponent with |E| <= 2^20 per own vector (real body: units scaler_scalar, lp_addscale:computeScaleExp)",
  "thesense == MAXIMIZE (doAddCols: the `*= -1` for minimisation is not expressible in the ledger)",
  "assumed |scale exponent| <= 2^20 on every read of an exponent array",
@@ -24,30 +24,36 @@ CONF = [
  {"file":LPB,"regex":"LPRowSetBase<R>::xtend\\(i,\\s*len\\);\\s*rowVector_w\\(i\\)\\.set_size\\(len\\);","why":"S3: doAddCols presets the extended row sizes before the region"},
 ]
 UNW = [{"function":"H::body\\(this\\)","loop":0},{"function":"H::body\\(this\\)","loop":1}]
-def inst(name, fn, defs, region_start, region_end, mutants):
-    d = {"CAPO":"2","CAPX":"2","MATW":"2","ADDSLICE":"\"region.inc\""}; d.update(defs)
+def inst(name, fn, defs, region_start, region_end, mutants, capo=2, tier="quick"):
+    d = {"CAPO":str(capo),"CAPX":"2","MATW":"2","ADDSLICE":"\"region.inc\""}; d.update(defs)
     return {"name":name, "function":fn, "cpp":["unit_add.cpp"], "c":["contract_add.c"], "harness":"h_add", "enforce":"w_add",
             "defines":d, "slices":sv_slices + [{"as":"region.inc","file":LPB,"region_start":region_start,"region_end":region_end,
                                                 "must_contain":["computeScaleExp","scaleExp\\[i\\]"]}],
-            "unwind_loops":UNW, "unwind":3, "conformance":CONF, "trusted":TRUSTED, "min_obligations":150, "tier":"quick", "mutants":mutants}
+            "unwind_loops":UNW, "unwind":capo + 1, "conformance":CONF, "trusted":TRUSTED, "min_obligations":150, "tier":tier, "mutants":mutants}
 def add_instances():
-    rows = inst("doAddRows_region",
+    out = []
+    for capo, tier, suffix in ((2, "quick", ""), (3, "thorough", "_cap3")):
+        out += _pair(capo, tier, suffix)
+    return out
+def _pair(capo, tier, suffix):
+    pick = (lambda ms: ms) if capo == 2 else (lambda ms: ms[:1])
+    rows = inst("doAddRows_region" + suffix,
       "SPxLPBase<R>::doAddRows(const LPRowSetBase<R>& set, bool scale)  [scale == true; region 'compute new row scaling factor and insert new elements to column file']",
       {"NEWROW":""},
       "// compute new row scaling factor and insert new elements to column file\\s*for\\(i = nRows\\(\\) - 1; i >= oldRowNumber; --i\\)",
       "#ifndef NDEBUG\\s*for\\(i = 0; i < nCols\\(\\); \\+\\+i\\)\\s*assert\\(newCols\\[i\\] == 0\\);",
-      [{"name":"seed_exp_at_relative_index","slice":"region.inc","find":"LPRowSetBase<R>::scaleExp[i] = newRowScaleExp;","replace":"LPRowSetBase<R>::scaleExp[i - oldRowNumber] = newRowScaleExp;"},
+      pick([{"name":"seed_exp_at_relative_index","slice":"region.inc","find":"LPRowSetBase<R>::scaleExp[i] = newRowScaleExp;","replace":"LPRowSetBase<R>::scaleExp[i - oldRowNumber] = newRowScaleExp;"},
        {"name":"cross_copy_before_scaling","slice":"region.inc","find":"col->value(idx) = vec.value(j);","replace":"col->value(idx) = vec.value(j) - newRowScaleExp;"},
        {"name":"only_row_exp","slice":"region.inc","find":"newRowScaleExp + colscaleExp[k]","replace":"newRowScaleExp"},
        {"name":"lhs_unguarded","slice":"region.inc","find":"if(lhs(i) > R(-infinity))","replace":"if(lhs(i) >= R(-infinity))"},
-       {"name":"exp_not_stored","slice":"region.inc","find":"LPRowSetBase<R>::scaleExp[i] = newRowScaleExp;","replace":""}])
-    cols = inst("doAddCols_region",
+       {"name":"exp_not_stored","slice":"region.inc","find":"LPRowSetBase<R>::scaleExp[i] = newRowScaleExp;","replace":""}]), capo, tier)
+    cols = inst("doAddCols_region" + suffix,
       "SPxLPBase<R>::doAddCols(const LPColSetBase<R>& set, bool scale)  [scale == true; region 'insert new elements to row file']",
       {},
       "// insert new elements to row file\\s*for\\(i = oldColNumber; i < nCols\\(\\); \\+\\+i\\)",
       "#ifndef NDEBUG\\s*for\\(i = 0; i < nRows\\(\\); \\+\\+i\\)\\s*assert\\(newRows\\[i\\] == 0\\);",
-      [{"name":"seed_exp_at_relative_index","slice":"region.inc","find":"LPColSetBase<R>::scaleExp[i] = newColScaleExp;","replace":"LPColSetBase<R>::scaleExp[i - oldColNumber] = newColScaleExp;"},
+      pick([{"name":"seed_exp_at_relative_index","slice":"region.inc","find":"LPColSetBase<R>::scaleExp[i] = newColScaleExp;","replace":"LPColSetBase<R>::scaleExp[i - oldColNumber] = newColScaleExp;"},
        {"name":"bounds_wrong_sign","slice":"region.inc","find":"upper_w(i) = spxLdexp(upper_w(i), - newColScaleExp);","replace":"upper_w(i) = spxLdexp(upper_w(i), newColScaleExp);"},
        {"name":"only_col_exp","slice":"region.inc","find":"newColScaleExp + rowscaleExp[k]","replace":"newColScaleExp"},
-       {"name":"slot_off_by_one","slice":"region.inc","find":"int idx = row.size() - newRows[k];","replace":"int idx = row.size() - newRows[k] - 1;"}])
+       {"name":"slot_off_by_one","slice":"region.inc","find":"int idx = row.size() - newRows[k];","replace":"int idx = row.size() - newRows[k] - 1;"}]), capo, tier)
     return [rows, cols]
